@@ -15,6 +15,7 @@ import (
 	"github.com/evolbioinfo/gotree/asr"
 	"github.com/evolbioinfo/gotree/tree"
 
+	"verif/internal/big"
 	"verif/internal/gen"
 	"verif/internal/gt"
 	"verif/internal/h"
@@ -691,11 +692,45 @@ func checkAsr(c AsrCase) error {
 	return nil
 }
 
+// asrManyChildren: nodes with 255, 256, 257 and 300 children of which exactly 256 carry the same
+// state (per-node counters that are not machine words wrap there), for the three algorithms.
+func asrManyChildren() []AsrCase {
+	var l []AsrCase
+	k := 0
+	for _, shape := range []string{"star", "wide"} {
+		for _, n := range []int{257, 258, 300, 262} {
+			for _, algo := range []string{"downpass", "deltran", "acctran"} {
+				if k++; k%h.NShards() != h.Shard() {
+					continue
+				}
+				m := big.Model(shape, n)
+				var seqs []string
+				for i := range m.Tips() {
+					// site 0: 256 tips A, the others C; site 1: 255 tips G, the others T; site 2: all A but one
+					s := []byte("CTA")
+					if i < 256 {
+						s[0] = 'A'
+					}
+					if i < 255 {
+						s[1] = 'G'
+					}
+					if i == 3 {
+						s[2] = 'G'
+					}
+					seqs = append(seqs, string(s))
+				}
+				l = append(l, AsrCase{Tree: m, Seqs: seqs, Algo: algo, Reroot: -1})
+			}
+		}
+	}
+	return l
+}
+
 func TestC12Asr(t *testing.T) {
 	h.Run(t, h.Spec[AsrCase]{
 		Property: "C12", Name: "asr", Quick: 6000, Thorough: 300000,
-		Rule: "trees (3..10 tips, 5% up to 30/100) x nucleotide alignments of 1..12 (thorough: ..30) sites over ACGT-, half of the cases with IUPAC ambiguity codes at tips x 3 algorithms x random resolution x re-rooting; oracle = Sankoff DP per site with tip state sets: per-site steps == minimum, tips keep their state sets, reported inner states within the optimal set, down-pass == optimal set; for unambiguous alignments every column must equal ParsimonyAcr on that column (steps and state sets); non-trivial = some site needs >= 2 steps and the tree has a polytomy or the alignment an ambiguity code",
-		Gen: genAsr, Check: checkAsr,
+		Rule: "trees (3..10 tips, 5% up to 30/100; plus constructed stars and wide nodes with 257-300 children, 256 of them carrying the same state) x nucleotide alignments of 1..12 (thorough: ..30) sites over ACGT-, half of the cases with IUPAC ambiguity codes at tips x 3 algorithms x random resolution x re-rooting; oracle = Sankoff DP per site with tip state sets: per-site steps == minimum, tips keep their state sets, reported inner states within the optimal set, down-pass == optimal set; for unambiguous alignments every column must equal ParsimonyAcr on that column (steps and state sets); non-trivial = some site needs >= 2 steps and the tree has a polytomy or the alignment an ambiguity code",
+		Gen: genAsr, Check: checkAsr, Anchors: asrManyChildren(),
 		Classify: func(c AsrCase) (bool, []string) {
 			l := []string{"algo:" + c.Algo}
 			amb := false
